@@ -138,9 +138,86 @@ def replay_state(st):
             Ep = (Kmat ** 2) @ wantE
             if np.max(np.abs(np.asarray(Bvar) - (np.asarray(X) ** 2) @ Ep.T)) > 1e-9 * (1 + np.max(np.abs(Bvar))):
                 bad.append(("C09.reported-variance", dict(variant="uncertainty", **where0), None, None, None))
+        # the same uncertainty registered AFTER the system: the default variance model is the registered uncertainty
+        e3 = dreye.ReceptorEstimator(F, domain=1.0, **kw)
+        e3.register_system(S, lb=lb, ub=ub)
+        e3.register_uncertainty(sig)
+        if not isinstance(e3.Epsilon, np.ndarray) or not np.allclose(e3.Epsilon, wantE, rtol=0, atol=1e-12):
+            bad.append(("C09.default-model", dict(variant="uncertainty-after-system", **where0), wantE.tolist(), repr(e3.Epsilon)[:200], None))
     except Exception as ex:
         bad.append(("C09.no-error", dict(exc=type(ex).__name__, variant="uncertainty", **where0), None, repr(ex)[:200], None))
+    # a tolerance at the tight end of the documented range (1e-6), mixed in- and out-of-gamut rows.  It is below the
+    # accuracy of the default solver, which may therefore give up loudly (RuntimeError) -- but whatever is RETURNED
+    # must be in-bound intensities that keep the fit quality; the high-accuracy solver must return.
+    rows_t = ([k for k, r in enumerate(recs) if r["zero"]][:2] + [k for k, r in enumerate(recs) if not r["zero"]][:2])
+    Eex = "heteroscedastic" if ek == "hetero" else E.copy()
+    for sname, skw in (("default", {}), ("CLARABEL", dict(solver="CLARABEL"))):
+        w = dict(variant="tight-tolerance", solver=sname, **where0)
+        try:
+            Xt, Bpt, _ = est.minimize_variance(B[rows_t].copy(), l2_eps=1e-6, Epsilon=Eex, **skw)
+        except RuntimeError as ex:
+            if sname != "default":
+                bad.append(("C09.no-error", dict(exc="RuntimeError", **w), None, repr(ex)[:200], None))
+            continue
+        except Exception as ex:
+            bad.append(("C09.no-error", dict(exc=type(ex).__name__, **w), None, repr(ex)[:200], None))
+            continue
+        rng = ub - lb
+        for j, k in enumerate(rows_t):
+            r = recs[k]
+            x = np.asarray(Xt, float)[j]
+            if not np.all(np.isfinite(x)) or np.any(x < lb - 1e-2 * rng) or np.any(x > ub + 1e-2 * rng):
+                bad.append(("C09.bounds", w, [lb.tolist(), ub.tolist()], x.tolist(), r))
+                continue
+            qstar = (np.asarray(r["q"], float) / r["qden"] + np.asarray(s["blN"], float)) / (D * DK)
+            pred = Kmat @ (A @ x + blv)
+            tol = TOLX if sname == "default" else 2e-3
+            if np.linalg.norm(pred - B[k]) > np.linalg.norm(qstar - B[k]) + 1e-6 + tol:
+                bad.append(("C09.fit-quality", w, float(np.linalg.norm(qstar - B[k])), float(np.linalg.norm(pred - B[k])), r))
     return bad
+
+
+def tight_probe(seed):
+    """Tutorial-shaped real-valued systems (Gaussian filters and LEDs, signed opponent matrix K among the adaptations),
+    in- and out-of-gamut rows in one call, l2_eps at the tight end of the documented range, default solver.  No oracle
+    is needed for the clause asserted here: whatever is returned must be finite in-bound intensities (a loud
+    RuntimeError is accepted: 1e-6 is below the default solver's accuracy)."""
+    dreye = import_dreye()
+    bad, n = [], 0
+    dom = np.arange(300.0, 701.0, 5.0)
+    g = lambda mu, sd: np.exp(-0.5 * ((dom - mu) / sd) ** 2)
+    filters = np.stack([g(m, 40.0) for m in (360.0, 450.0, 540.0)])
+    sources = np.stack([g(m, 15.0) for m in (340.0, 400.0, 460.0, 520.0, 590.0)])
+    sources = sources / (sources.sum(axis=-1) * 5.0)[:, None]
+    Ks = {"none": 1.0, "vector": np.array([1.0, 2.0, 0.5]), "matrix": np.array([[1, 1, 1], [1, -1, 0], [0.5, 0.5, -1.0]])}
+    for kname, K in Ks.items():
+        for s2 in range(3):
+            rng = np.random.default_rng(seed * 100 + s2)
+            est = dreye.ReceptorEstimator(filters, domain=dom, K=K)
+            est.register_system(sources, lb=0.0, ub=1.0)
+            Bin = est.system_relative_capture(rng.uniform(0.25, 0.75, (3, 5)))
+            Bout = Bin[:2] + rng.choice([-0.6, 0.5], size=(2, 3)) * np.abs(Bin[:2]).max() * (rng.random((2, 3)) < 0.5)
+            B = np.vstack([Bin, Bout])[rng.permutation(5)]
+            if s2 == 0:
+                # one fixed pair (an in-gamut row followed by a row far outside along one capture axis)
+                r5 = np.random.default_rng(5)
+                Bi = est.system_relative_capture(r5.uniform(0.25, 0.75, (3, 5)))
+                Bo = Bi[:2] + np.array([[0.0, 0.0, -0.6], [0.5, 0.0, 0.0]]) * np.abs(Bi[:2]).max()
+                B = np.vstack([Bi, Bo])[[2, 3]]
+            for eps in (1e-6, 1e-5):
+                w = dict(variant="tight-tolerance-probe", kk=kname, l2_eps=eps, solver="default")
+                n += 1
+                try:
+                    X, Bp, Bv = est.minimize_variance(B.copy(), Epsilon=est.A ** 2, l2_eps=eps)
+                except RuntimeError:
+                    continue
+                except Exception as ex:
+                    bad.append(("C09.no-error", dict(exc=type(ex).__name__, **w), None, repr(ex)[:200], None))
+                    continue
+                X = np.asarray(X, float)
+                if not np.all(np.isfinite(X)) or X.min() < -1e-2 or X.max() > 1 + 1e-2:
+                    bad.append(("C09.bounds", w, [0.0, 1.0], [float(np.nanmin(X)), float(np.nanmax(X))], dict(seed=seed * 100 + s2, kk=kname)))
+    return bad, n
 
 
 def _group(sts):
@@ -168,6 +245,11 @@ def run(ctx):
             nex += r["exact"]
             if r["nverts"] >= 2 or not r["zero"]:
                 ctx.nontrivial.add((repr(st["sys"]), st["ek"], tuple(r["b"])))
+    pb, pn = tight_probe(ctx.seed)
+    for clause, where, exp, obs, r in pb:
+        ctx.violation(clause, where, dict(probe=r), exp, obs)
+    ctx.count("tight-tolerance probe calls", pn)
+    ctx.evaluations += pn
     ctx.traces += len(sts)
     ctx.extra["targets_with_exact_stage2"] = nex
     for st in sts[:2]:
